@@ -12,9 +12,20 @@
 //	C20.special  grid + rapid: the same helpers at element types with special characteristics (methods that contradict == / the
 //	             zero value, interface-typed T, nil pointers, zero-size, non-comparable, -0, big values), Coal after long runs of zeros
 //	C20.long     grid + rapid: Min/Max/Sum/Product with 7..5000 arguments, Compare/Less/Min/Max/Clamp on strings of 7..5000 bytes
+//	C20.big      grid + rapid: the same with 2^13..2^17 (+-1) arguments and strings of up to 2^20 bytes, under GOMAXPROCS 1, 2, 3, 5, 6, 7, 16,
+//	             argument slices that are windows into larger poisoned buffers (up to > 1 MiB of spare capacity)
+//	C20.bigcoal  grid + rapid: Coal with 2^13..2^17 (+-1) arguments (first non-zero around chunk boundaries), 2^20..2^32 zero-size arguments
+//	C20.seq      grid + rapid: histories of calls in one goroutine; Ref pointers and string results kept and re-examined after later calls
+//	             and garbage collections; calls aborted by a panicking / Goexit-ing IsZero method before ordinary calls
+//	C20.repeat   2^16+3 and 2^17+3 consecutive calls of each helper alternating between two arguments (call counters, caches)
+//	C20.repeat32 thorough only: 2^32+3 consecutive calls
+//
+// All units except big and bigcoal (which change GOMAXPROCS) and repeat32 also run one case in 8 or 16 as four parallel
+// independent copies (Spec.Replicas): every Run function here is reentrant (package-level tables are read-only after init).
 package c20
 
 import (
+	"runtime/debug"
 	"testing"
 
 	"verifharness/internal/pbt"
@@ -128,5 +139,15 @@ func TestC20Wide(t *testing.T)    { pbt.Check(t, specWide) }
 func TestC20Util(t *testing.T)    { pbt.Check(t, specUtil) }
 func TestC20Special(t *testing.T) { pbt.Check(t, specSpecial) }
 func TestC20Long(t *testing.T)    { pbt.Check(t, specLong) }
-func TestC20Big(t *testing.T)     { pbt.Check(t, specBig) }
-func TestReplay(t *testing.T)     { pbt.Replay(t) }
+func TestC20Big(t *testing.T) {
+	debug.SetGCPercent(400) // every case allocates megabytes: collect less often (each unit runs in a process of its own)
+	pbt.Check(t, specBig)
+}
+func TestC20Bigcoal(t *testing.T) {
+	debug.SetGCPercent(400)
+	pbt.Check(t, specBigCoal)
+}
+func TestC20Repeat(t *testing.T)   { pbt.Check(t, specRepeat) }
+func TestC20Repeat32(t *testing.T) { pbt.Check(t, specRepeat32) }
+func TestC20Seq(t *testing.T)      { pbt.Check(t, specSeq) }
+func TestReplay(t *testing.T)      { pbt.Replay(t) }
